@@ -1647,6 +1647,67 @@ def ob_factory(which):
     return fn
 
 
+def ob_factory_tree_models():
+    """json_factory of the tree models (and of what is built on them: strict clock, CTMC-scale prior, view parameter) with EVERY value of
+    their documented keyword `keep_branch_lengths` (omitted / False / True): the emitted specification loads into a model that evaluates
+    like the directly constructed one — with the supplied branch lengths / heights when the option is off, with those read from the newick
+    string when it is on."""
+    def fn():
+        import torch
+        from torchtree.core.parameter import Parameter
+        from torchtree.evolution.tree_model import (ReparameterizedTimeTreeModel, TimeTreeModel, UnRootedTreeModel, initialize_dates_from_taxa,
+                                                    parse_tree)
+        from torchtree.evolution.taxa import Taxa, Taxon
+        u = _utils()
+        msgs, n = [], 0
+        nwk_u = "((A:0.01,B:0.02):0.03,C:0.04,D:0.05);"
+        nwk_t = "((A:1.0,B:1.0):2.0,(C:1.5,D:1.5):1.5);"
+        taxa_u = ["A", "B", "C", "D"]
+        taxa_t = {"A": 0.0, "B": 0.0, "C": 0.0, "D": 0.0}
+        supplied_bl = [0.11, 0.12, 0.13, 0.14, 0.15]
+        supplied_h = [1.2, 1.7, 3.4]
+
+        def mk_taxa(dated):
+            return Taxa("taxa", [Taxon(t, {"date": 0.0} if dated else {}) for t in taxa_u])
+        for keep in ("omitted", False, True):
+            kw = {} if keep == "omitted" else {"keep_branch_lengths": keep}
+            # unrooted
+            spec = UnRootedTreeModel.json_factory("tree", nwk_u, list(supplied_bl), dict.fromkeys(taxa_u), **kw)
+            dic = {}
+            loaded = u.process_object(spec, dic)
+            taxa = mk_taxa(False)
+            tree = parse_tree(taxa, {"newick": nwk_u})
+            if keep is True:
+                want = torch.tensor([0.01, 0.02, 0.04, 0.05, 0.03])
+            else:
+                want = torch.tensor(supplied_bl)
+            got = loaded.branch_lengths()
+            n += 1
+            if keep is True:
+                ok = sorted(round(float(x), 6) for x in got) == sorted(round(float(x), 6) for x in want)   # node order is C01/C02's subject
+            else:
+                direct = UnRootedTreeModel("tree", tree, taxa, Parameter("branch_lengths", want.clone()))
+                ok = got.shape == direct.branch_lengths().shape and bool(torch.allclose(got, direct.branch_lengths()))
+            if not ok:
+                msgs.append("UnRootedTreeModel.json_factory(keep_branch_lengths=%s): loaded model has branch lengths %s, expected %s"
+                            % (keep, [round(float(x), 4) for x in got], [round(float(x), 4) for x in want]))
+            # time tree
+            spec = TimeTreeModel.json_factory("tree", nwk_t, list(supplied_h), dict(taxa_t), **kw)
+            dic = {}
+            loaded = u.process_object(spec, dic)
+            got = loaded.node_heights[..., 4:]
+            want = torch.tensor([1.0, 1.5, 3.0]) if keep is True else torch.tensor(supplied_h)
+            n += 1
+            if not (got.shape == want.shape and torch.allclose(got.double(), want.double())):
+                msgs.append("TimeTreeModel.json_factory(keep_branch_lengths=%s): loaded model has internal heights %s, expected %s"
+                            % (keep, [round(float(x), 4) for x in got], want.tolist()))
+        if msgs:
+            raise Refuted(msgs[0], witness={"factory": "tree models", "observed": msgs}, replay=None, confirmed=True)
+        return {"backend": "concrete", "cases": n, "statement": "tree-model json_factory x keep_branch_lengths in {omitted, False, True}: %d specifications load into models with the "
+                                                                 "branch lengths / heights the option names" % n}
+    return fn
+
+
 def ob_sharing_generic():
     """U: a reference resolved before and after arbitrary contract-conforming registry activity yields one instance"""
     def fn():
@@ -1832,6 +1893,7 @@ def obligations(tier, seed):
     add("C13.comments.real", "B", ob_comments_no_effect(), "comments", funcs=FUNCS[4:5])
     for w in ("Parameter", "Distribution", "Distribution.refs", "DeterministicNormal", "BayesianBridge", "ScaleMixtureNormal"):
         add("C13.factory[%s]" % w, "B", ob_factory(w), "json_factory", funcs=[])
+    add("C13.factory[tree models x keep_branch_lengths]", "B", ob_factory_tree_models(), "json_factory", funcs=[])
     # --- G: vacuity guards
     drop, cpy, fixd = _variant("drop_duplicate_check"), _variant("reference_returns_copy"), _variant("recheck_inserted")
     add("C13.vacuity.definition.generic", "G", must_fail(ob_generic_node(DEF_CLAUSES, drop), "duplicate-id test removed / generic node", "definition"), "vacuity")
